@@ -254,6 +254,17 @@ func (o *c06) End(x *hctx) string {
 		if d := diffExcept(baseline[j], got, except); d != "" {
 			return fmt.Sprintf("tape cut at byte %d (%s; last complete record ends at %d): entries other than the one addressed by the torn record %v differ:\n%s", ell, where, ends[j], sortedKeys(except), d)
 		}
+		// a record torn inside its content is a create or a content update: the entry it addresses
+		// was there after the last complete record or not, and a cut does not take it away
+		if where == "inside content or padding" {
+			for p := range except {
+				if be, had := baseline[j].Get(p); had {
+					if ge, ok := got.Get(p); !ok || ge.Kind != be.Kind {
+						return fmt.Sprintf("tape cut at byte %d (%s): %s existed after the last complete record (ends at %d), the torn record only rewrites it, but the rebuilt index no longer lists it (present=%v)", ell, where, p, ends[j], ok)
+					}
+				}
+			}
+		}
 		// the torn entry: an error, or exactly its last complete content
 		for p := range except {
 			ge, ok := got.Get(p)
